@@ -606,7 +606,7 @@ def walk_tuple(t, fn, seen):
 def mk_memcmp(p, q, n):
     """result of memcmp(p, q, n) as a pure, sign-valued atom; canonical operand order (memcmp(q,p,n) has the
     opposite sign, and only the sign of the result is ever used)"""
-    if p == q:
+    if p == q or (isinstance(n, Lin) and n.is_const() and n.c == 0):
         return ZERO
     if repr(p) <= repr(q):
         return atom(("purecall", "memcmp", p, q, n))
